@@ -329,7 +329,7 @@ def _conflicts(ctx, P):
                        method_models={("Dataset", "__getitem__"): getitem, ("DataArray", "reset_coords"): lambda ev, r, a, k, n: r.with_eff(("reset_coords",))})
 
         def make():
-            dims = (dimsym("AX", "center"), dimsym("AX", "left"), dimsym("AX", "right"), Sym("face"))
+            dims = (dimsym("AX", "center"), dimsym("AX", "left"), dimsym("AX", "right"), Sym("face"), dimsym("AY", "center"), dimsym("AY", "left"))
             ds = Obj("Dataset", "ds", (), {"dims": dims, "variables": ["dx"], "data_vars": ["dx"], "__isinstance__": ("Dataset",)})
             me = Obj("Grid", "self", (), {"__class__": "grid:Grid"})
             a = dict(self=me, ds=ds, coords=None, periodic=False, fill_value=None, default_shifts=None, boundary=None, face_connections=None, metrics=None, autoparse_metadata=True)
@@ -368,6 +368,13 @@ def _conflicts(ctx, P):
                     bad = bad or f"a user-supplied `{key}` together with a parsed one is merged/accepted instead of refused"
                 elif isinstance(o.env.get("self").attrs.get("axes"), dict):
                     bad = bad or f"the conflict on `{key}` is reported only after the axes were built"
+            if key == "coords":
+                # ... also when the user's coords describe another axis than the parsed ones: rejected, not merged
+                other = {Sym("AY"): {"center": dimsym("AY", "center"), "left": dimsym("AY", "left")}}
+                for o in run(parsed, {key: other}):
+                    if o.kind != "raise":
+                        axes = o.env.get("self").attrs.get("axes")
+                        bad = bad or f"user-supplied coords for another axis are merged with the parsed ones (axes {sorted(map(str, axes)) if isinstance(axes, dict) else axes!r}) instead of refused"
             # (c) nothing parsed for this key: the user's value is used untouched
             if key != "coords":
                 parsed3 = {"coords": copy.deepcopy(base_coords)}
